@@ -106,8 +106,9 @@ func parseSingleConstraint(c string) ([]*constraint, error) {
 		return parseTildeRange(c[1:])
 	}
 
-	// Handle x-range (1.x, 1.2.x)
-	if strings.Contains(c, "x") || strings.Contains(c, "X") {
+	// Handle x-range (1.x, 1.2.x, 1.*): a whole component of the version core is a
+	// wildcard. A letter x inside a prerelease identifier (>=1.0.0-next.1) is not one.
+	if isXRange(c) {
 		return parseXRange(c)
 	}
 
@@ -170,7 +171,27 @@ func parseTildeRange(version string) ([]*constraint, error) {
 	}, nil
 }
 
-// parseXRange handles x-ranges (1.x, 1.2.x)
+// isXRange reports whether one of the dot-separated components of the version core
+// (the part before any prerelease or build metadata) is a wildcard
+func isXRange(c string) bool {
+	core := c
+	if i := strings.IndexAny(core, "-+"); i != -1 {
+		core = core[:i]
+	}
+	for _, part := range strings.Split(core, ".") {
+		if isWildcard(part) {
+			return true
+		}
+	}
+	return false
+}
+
+// isWildcard reports whether a version component is one of x, X or *
+func isWildcard(part string) bool {
+	return part == "x" || part == "X" || part == "*"
+}
+
+// parseXRange handles x-ranges (1.x, 1.2.x, 1.*)
 func parseXRange(rangeStr string) ([]*constraint, error) {
 	parts := strings.Split(rangeStr, ".")
 	if len(parts) < 2 {
@@ -183,7 +204,7 @@ func parseXRange(rangeStr string) ([]*constraint, error) {
 	}
 
 	// 1.x means >=1.0.0-0 <2.0.0-0 (includes prereleases in range, excludes prereleases from next major)
-	if len(parts) == 2 && (parts[1] == "x" || parts[1] == "X") {
+	if len(parts) == 2 && isWildcard(parts[1]) {
 		return []*constraint{
 			{operator: ">=", version: fmt.Sprintf("%d.0.0-0", major)},
 			{operator: "<", version: fmt.Sprintf("%d.0.0-0", major+1)},
@@ -191,7 +212,7 @@ func parseXRange(rangeStr string) ([]*constraint, error) {
 	}
 
 	// 1.2.x means >=1.2.0-0 <1.3.0-0 (includes prereleases in range, excludes prereleases from next minor)
-	if len(parts) == 3 && (parts[2] == "x" || parts[2] == "X") {
+	if len(parts) == 3 && isWildcard(parts[2]) {
 		minor, err := strconv.Atoi(parts[1])
 		if err != nil {
 			return nil, fmt.Errorf("invalid minor version in x-range: %s", parts[1])
